@@ -209,6 +209,30 @@ def check_history(ctx, c):
     if not okk:
         viol("refit-same-object-differs", "fit_transform on an already fitted (and used) estimator differs from its first fit on the same data: %s" % why)
         return
+    # re-fit the same object on *other* data (the transform set) and compare with a fresh estimator fitted on it:
+    # nothing learned from, or cached during, the earlier fit and transforms may survive
+    if z.rowwise and name not in ("Wasserstein", "Sinkhorn", "ApproxWasserstein", "Distribution") and zoo.n_items(c, "test") >= 2:
+        c_swap = dict(c, train=c["test"], test=c["train"])
+        try:
+            fresh = zoo.make(c_swap, V, zoo.n_items(c_swap, "train"))
+            Xs, kws = zoo.data(c_swap, "train", fit=True)
+            fresh.fit(Xs, **kws)
+            exp_swap = _transform(fresh, c_swap, name, c_swap)
+        except Exception:
+            exp_swap = None
+        if exp_swap is not None:
+            try:
+                Xs, kws = zoo.data(c_swap, "train", fit=True)
+                est.fit(Xs, **kws)
+                got_swap = _transform(est, c_swap, name, c_swap)
+                ctx.count("refit_other_data_checks")
+                okk, why = zoo.rows_equal(zoo.as_rows(exp_swap), zoo.as_rows(got_swap), 1e-9)
+                if not okk:
+                    viol("refit-on-other-data-differs-from-fresh-estimator", "an estimator re-fitted on other data transforms differently from a fresh estimator fitted on that data: %s" % why)
+                    return
+            except Exception as e:
+                viol("refit-on-other-data-raises/%s" % type(e).__name__, "re-fitting a used estimator on other data raised %s: %s" % (type(e).__name__, str(e)[:160]))
+                return
     if state["ok"]:
         ctx.ok(sg, not name.startswith("Slid"))
 
@@ -234,6 +258,10 @@ def check_params(ctx, c):
             if c["excluded"]:
                 ex = set(c["excluded"])
                 objs["excluded_tokens"] = ex
+                kw.pop("token_dictionary")  # a learned vocabulary: exclusions and the frequency bound both prune
+                objs.pop("token_dictionary")
+                kw["ignored_tokens" if c["est"] in ("Skipgram", "Tree") else "excluded_tokens"] = ex
+                kw["min_occurrences"] = 2
             kargs = None
             e = c["est"]
             docs, test = c["docs"], c["test"]
@@ -305,7 +333,9 @@ def gen_params(r):
         mask = r.choice([None, "[M]", "[M]"])
         if mask and r.random() < 0.3:
             d.append(mask)  # the user's dictionary may already contain the mask
-        return {"kind": k, "label": "%s/%s" % (e if e not in coh.EST else "Cooc-" + e, "mask" if mask else "nomask"), "est": e, "dict": d, "mask": mask, "excluded": None, "docs": docs, "test": test}
+        excl = [r.choice(toks)] if r.random() < 0.35 else None
+        lab = "excluded-set" if excl else ("mask" if mask else "nomask")
+        return {"kind": k, "label": "%s/%s" % (e if e not in coh.EST else "Cooc-" + e, lab), "est": e, "dict": d, "mask": mask if not excl else None, "excluded": excl, "docs": docs, "test": test}
     if k == "lz_base":
         return {"kind": k, "label": "LZ/base_dictionary", "dict": {"a": 1, "b": 2}, "docs": ["abab", "ba", ""], "test": ["aab", "q"]}
     rows, cols = ["r0", "r1", "r2"], ["c0", "c1"]
